@@ -31,10 +31,11 @@ META = {
                    'latest pending value of each assigned column (none if nothing pending) and leave the row = old row '
                    'overridden by them; dirty <-> pending non-empty in every reachable state (any operations, raw SQL '
                    'included); INSERT and DELETE are immediate.  The model is hand-written from main.py and compared with '
-                   'the real code on every run.  C16_translated_*_eq_model: the bodies of syncUpdate / sync (and the '
-                   'methods listed there), translated from the AST on this run (vlib/extractors/pymain.py -> '
+                   'the real code on every run.  C16_translated_{syncUpdate,sync,setValue,set1,set0}_eq_model: the bodies of '
+                   'syncUpdate / sync / _SO_setValue / set, translated from the AST on this run (vlib/extractors/pymain.py -> '
                    'Extracted/PyMain.lean), run from the image of ANY model state with ANY insertion order of the pending '
-                   'dict, yield exactly what opSyncUpdate / opSync yield.'),
+                   'dict, yield exactly what opSyncUpdate / opSync / opSetattr / opSet yield (set: proved for calls with '
+                   'no keyword and with one keyword, lazy and eager branch; n keywords: hand model + correspondence).'),
     'level_note': ('Trusted: Lean kernel, the harness (statement canonicaliser), SQLite as the row store; the sampling '
                    'correspondence of the model.  Event listeners, joins and per-connection instances are not modelled.'),
     'rule': ('case = one history (cache on/off, read mode A/B, ≤ 25 ops, 70 % on lazy classes); distinct = distinct op '
